@@ -206,13 +206,7 @@ class SessionDriver:
             raised = type(ex).__name__
             self.exc = repr(ex)[:200]
         args_changed = changed(watch, s0)
-        sd1 = full_state(m)
-        writes = set()
-        if set(sd1.keys()) != set(sd0.keys()):
-            writes.add("other:keys")
-        for k, v in sd1.items():
-            if k in sd0 and (v.shape != sd0[k].shape or v.dtype != sd0[k].dtype or not torch.allclose(v.detach(), sd0[k], rtol=0, atol=0, equal_nan=True)):
-                writes.add(categorize(k, self.anp))
+        writes = self.writes_since(sd0, m)
         key = (op, ik)
         if raised != "none":
             rep = "first"
@@ -240,6 +234,18 @@ class SessionDriver:
             except Exception:  # noqa  (a model that cannot be rebuilt / reloaded is C15's business)
                 twin = "na"
         return {"a": "Call", "op": op, "ik": ik, "argsChanged": bool(args_changed), "writes": sorted(writes), "repeat": rep, "raised": raised, "twin": twin}
+
+    def writes_since(self, sd0, m):
+        """State categories (parameters, buffers, requires_grad and mode flags) that differ from the snapshot."""
+        torch = self.torch
+        sd1 = full_state(m)
+        writes = set()
+        if set(sd1.keys()) != set(sd0.keys()):
+            writes.add("other:keys")
+        for k, v in sd1.items():
+            if k in sd0 and (v.shape != sd0[k].shape or v.dtype != sd0[k].dtype or not torch.allclose(v.detach(), sd0[k], rtol=0, atol=0, equal_nan=True)):
+                writes.add(categorize(k, self.anp))
+        return writes
 
     def apply(self, name, args):
         torch = self.torch
@@ -328,6 +334,10 @@ class SessionDriver:
         caches = [(mod, (mod.cache.weight, mod.cache.inverse, mod.cache.logabsdet)) for mod in m.modules() if isinstance(mod, Linear)]
         for mod, _ in flags:
             mod.training = False
+        # like with like: both models fill their weight caches along the same sequence of calls (the cached
+        # log-det differs in the last bit depending on whether forward or inverse filled the cache first)
+        for mod, _ in caches:
+            mod.cache.invalidate()
         try:
             return self.probe(m, drop_caches=False)
         finally:
@@ -351,18 +361,22 @@ class SessionDriver:
                 buf.seek(0)
                 m2 = torch.load(buf, weights_only=False)
         except Exception as ex:  # noqa  (zoo constructors close over local functions: not picklable)
-            return {"a": "Clone", "how": how, "same": True, "modesSame": True, "stateSame": True, "error": repr(ex)[:120] or "error"}
+            return {"a": "Clone", "how": how, "same": True, "modesSame": True, "stateSame": True, "error": repr(ex)[:120] or "error", "probeWrites": []}
         modes = [mod.training for mod in m.modules()] == [mod.training for mod in m2.modules()]
         s1, s2 = full_state(m), full_state(m2)
         state = set(s1) == set(s2) and all(s1[k].shape == s2[k].shape and s1[k].dtype == s2[k].dtype and torch.allclose(s1[k].detach(), s2[k].detach(), rtol=0, atol=0, equal_nan=True) for k in s1)
-        before, after = self.probe_in_place(m), self.probe_in_place(m2)
+        # the probes are evaluation-mode calls themselves: what they write is observed like any call's writes
+        sd0 = {k: v.detach().clone() for k, v in full_state(m).items()}
+        before = self.probe_in_place(m)
+        probe_writes = sorted(self.writes_since(sd0, m))
+        after = self.probe_in_place(m2)
         same = len(before) == len(after) and all(((r1 == r2) if isinstance(r1, str) or isinstance(r2, str) else same_result(r1, r2)) for (_, r1), (_, r2) in zip(before, after))
         self.m = m2
         self.bn, self.an, self.anp = model_layers(self.m)
         params = [p for p in self.m.parameters()]
         self.opt = torch.optim.SGD(params, lr=0.05) if params else None
         self.last = {}
-        return {"a": "Clone", "how": how, "same": bool(same), "modesSame": bool(modes), "stateSame": bool(state), "error": ""}
+        return {"a": "Clone", "how": how, "same": bool(same), "modesSame": bool(modes), "stateSame": bool(state), "error": "", "probeWrites": probe_writes}
 
     def save_load(self):
         torch = self.torch
@@ -370,7 +384,10 @@ class SessionDriver:
 
         m = self.m
         sd = {k: v.detach().clone() for k, v in m.state_dict().items()}
+        sd0 = {k: v.detach().clone() for k, v in full_state(m).items()}
         before = self.probe(m)
+        # the probes are evaluation-mode calls (the mode flags are switched by the probe itself: not counted)
+        probe_writes = sorted(self.writes_since(sd0, m) - {"mode_flag"})
         self.reloads += 1
         # other constructor draws, other parameters, other values of buffer-backed constructor arguments
         m2 = self.e.build(self.seed + 1000 * self.reloads + 17, alt=True)
@@ -407,7 +424,7 @@ class SessionDriver:
         params = [p for p in self.m.parameters()]
         self.opt = torch.optim.SGD(params, lr=0.05) if params else None
         self.last = {}
-        return {"a": "SaveLoadFresh", "same": bool(same), "keysMatch": bool(keys_match), "diffOp": diff_op or "", "loadError": err or ""}
+        return {"a": "SaveLoadFresh", "same": bool(same), "keysMatch": bool(keys_match), "diffOp": diff_op or "", "loadError": err or "", "probeWrites": probe_writes}
 
 
 def session_task(task):
